@@ -71,7 +71,7 @@ func runPool(sc poolScenario) (string, string) {
 	cfg := sess.Config(cl, 4, ips...)
 	cfg.NumConns = sc.size
 	cfg.Timeout = 300 * time.Millisecond
-	s, err := cfg.CreateSession()
+	s, err := createSession(cfg)
 	if err != nil {
 		return "fatal:" + err.Error(), "fatal"
 	}
@@ -201,7 +201,7 @@ func runClose(closers int, inflight int, r *vh.Rng) string {
 	cfg := sess.Config(cl, 4, "10.0.0.1", "10.0.0.2")
 	cfg.NumConns = 2
 	cfg.Timeout = 5 * time.Second
-	s, err := cfg.CreateSession()
+	s, err := createSession(cfg)
 	if err != nil {
 		return "fatal:" + err.Error()
 	}
@@ -276,7 +276,7 @@ func closeRace(rounds int) string {
 	var panics, notReturned int64
 	for i := 0; i < rounds; i++ {
 		cfg := sess.Config(cl, 4, "10.0.0.1")
-		s, err := cfg.CreateSession()
+		s, err := createSession(cfg)
 		if err != nil {
 			return "fatal:" + err.Error()
 		}
